@@ -1,4 +1,5 @@
 import SspModel.Props.C05
+import SspModel.Lemmas.Bridge.Bins
 import SspModel.Props.C07
 import SspModel.Props.C13
 /-!
@@ -71,6 +72,18 @@ theorem views_class_order (factor nmin : ℝ) (rows : List (ViewRow ℝ)) (h : r
   List.Pairwise.sublist List.filter_sublist h
 
 structure Statement : Prop where
+  /-- row extraction of a star bin (both model classes) and the row-level ejection budget are the source's own expressions -/
+  source_row : ∀ n a lo hi : ℝ, extractStar n a lo hi =
+      match Pk a 1 lo hi, Pk a 2 lo hi with
+      | some p1, some p2 => some (Generated.row_Ms (Generated.row_As n p1) p2, Generated.row_ms (Generated.row_Ms (Generated.row_As n p1) p2) n)
+      | _, _ => some (Generated.row_thin n lo, Generated.row_ms (Generated.row_thin n lo) n)
+  source_row_bh : ∀ n p1 A p2 lo Ms : ℝ,
+    Generated.rowbh_As n p1 = Generated.row_As n p1 ∧ Generated.rowbh_Ms A p2 = Generated.row_Ms A p2 ∧
+    Generated.rowbh_thin n lo = Generated.row_thin n lo ∧ Generated.rowbh_ms Ms n = Generated.row_ms Ms n
+  source_budget : ∀ formed ret mej kicked mret mmin nmin : ℝ,
+    Generated.row_mej formed ret = formed * (1 - ret) ∧ Generated.row_mret formed mej = formed - mej ∧
+    Generated.row_shortcut mret mmin nmin = (Scalar.le 0 (mret / mmin) && Scalar.lt (mret / mmin) nmin) ∧
+    Generated.row_after_kicks mej kicked = mej - kicked ∧ Generated.row_over_budget mej = Scalar.lt mej 0
   star_nonneg : ∀ n a lo hi Ms ms : ℝ, 0 ≤ n → 0 < lo → lo < hi → extractStar n a lo hi = some (Ms, ms) →
     0 ≤ Ms ∧ (n ≠ 0 → 0 < ms)
   star_defined : ∀ n a lo hi : ℝ, ∃ Ms ms, extractStar n a lo hi = some (Ms, ms)
@@ -96,6 +109,9 @@ structure Statement : Prop where
     resolution, the solver never probing a time whose remnant falls outside its class's bins) are numerical facts about
     dopri5 and about the IFMR tables; they are what the random-configuration sweep looks for. -/
 theorem C04_partial : Statement where
+  source_row := Bridge.gen_extractStar
+  source_row_bh := Bridge.gen_row_same_in_both_classes
+  source_budget := Bridge.gen_row_budget
   star_nonneg := extractStar_nonneg
   star_defined := extractStar_defined
   rem_mean_nonneg := remMean_nonneg
